@@ -6,5 +6,8 @@ fn main() {
     println!("cargo:rustc-env=VERIF_REPO={}", repo);
     println!("cargo:rerun-if-env-changed=VERIF_REPO");
     println!("cargo:rerun-if-changed={}/chiritori-cli/src/main.rs", repo);
+    // export the executable's symbols dynamically as well, so that `clock_gettime` / `getrandom`
+    // are found whichever way std looks them up (link time or dlsym)
+    println!("cargo:rustc-link-arg=-rdynamic");
     println!("cargo:rerun-if-changed=build.rs");
 }
